@@ -49,20 +49,18 @@ def run(out, tier, seed):
     out.extra["read_kinds"] = len(KINDS)
     jobs = []
     rng = random.Random(seed)
-    per = 12 if quick else len(KINDS)
+    per = 24 if quick else len(KINDS)
     for i, h in enumerate(hs):
         kinds = KINDS if not quick else [KINDS[(i * per + j) % len(KINDS)] for j in range(per)]
         for du in (False, True):
-            if quick and (i + du) % 2:
-                continue
             jobs.append({"cfg": dict(base, facade="dataset", default_union=du, vocab=["plain", "bnodey", "falsy"][i % 3]),
                          "events": with_reads(decorate(h, i), kinds, names, i)})
     U3 = (["s1", "s2"], ["p1", "p2"], ["o1", "o2", "s2"])
     names4 = ["D", "g1", "g2", "b1"]
-    for i in range(150 if quick else 2000):
+    for i in range(400 if quick else 3000):
         evs = random_history(rng, U3, names4, rng.randint(4, 15))
         evs = [e for e in evs if e["op"] not in ("remove",)] or evs
-        kinds = rng.sample(KINDS, 10 if quick else 25)
+        kinds = rng.sample(KINDS, 16 if quick else 30)
         jobs.append({"cfg": dict(S=U3[0], P=U3[1], O=U3[2], names=names4, facade="dataset", default_union=bool(i % 2), obs="marked", obs_kind="light",
                                  vocab=["plain", "bnodey", "typed", "hostile"][i % 4]), "events": with_reads(decorate(evs, i), kinds, names4, i)})
     out.exhaustive = False
